@@ -4,7 +4,7 @@
    its source sample and inside [0, MAXVAL]. *)
 From V Require Import Common.Base JpegLS.JlsParams JpegLS.JlsGolomb JpegLS.JlsRun JpegLS.JlsModel.
 From V Require Import JpegLS.JlsProofsParams JpegLS.JlsProofsGolomb JpegLS.JlsProofsSample
-                      JpegLS.JlsProofsRun JpegLS.JlsProofsNear0 JpegLS.JlsProofsInterrupt.
+                      JpegLS.JlsProofsRun JpegLS.JlsProofsNear0 JpegLS.JlsProofsInterrupt JpegLS.JlsProofsWriter.
 
 Definition near_close (near s r : Z) : Prop := Z.abs (r - s) <= near.
 
@@ -73,17 +73,17 @@ Section Line1.
     (pk = PkNear -> store = true) -> in_range P x ->
     regular_enc pk store p c qs ra rb rc x = (ops, c', stored) ->
     regular_dec p c qs ra rb rc (ops_bits ops ++ rest) = Some (stored, c', rest) /\
-    near_close near x stored /\ in_range P stored.
+    near_close near x stored /\ in_range P stored /\ Forall wop_ok ops.
   Proof.
     intros store c qs ra rb rc x rest ops c' stored Hst Hx Henc. unfold near_close, in_range in *.
     destruct pk eqn:Epk.
     - simpl in Hpk. unfold p in *. subst near.
-      destruct (sample_exact P store c qs ra rb rc x rest ops c' stored HP Hx Henc) as [Hd Hs].
-      subst stored. split; [exact Hd|]. split; [rewrite Z.sub_diag; simpl; lia | lia].
+      destruct (sample_exact P store c qs ra rb rc x rest ops c' stored HP Hx Henc) as (Hd & Hs & Hwf).
+      subst stored. split; [exact Hd|]. split; [rewrite Z.sub_diag; simpl; lia|]. split; [lia | exact Hwf].
     - specialize (Hst eq_refl). subst store.
       destruct (sample_near P near true c qs ra rb rc x rest ops c' stored HP Hnear Hx Henc)
-        as (x' & Hd & Hb & Hr & Hs).
-      subst stored. split; [exact Hd|]. split; assumption.
+        as (x' & Hd & Hb & Hr & Hs & Hwf).
+      subst stored. split; [exact Hd|]. split; [assumption|]. split; assumption.
   Qed.
 
   Variables (w y pfp pn1 : Z).
@@ -102,18 +102,18 @@ Section Line1.
     enc_line1 fuel pk p w y pfp pn1 st x pw cur inp ops_rev = Ok (st', cur', ops_rev') ->
     exists ops recs,
       ops_rev' = rev ops ++ ops_rev /\ cur' = rev recs ++ cur /\
-      Forall2 (near_close near) inp recs /\ Forall (in_range P) recs /\ jst_ok st' /\
+      Forall2 (near_close near) inp recs /\ Forall (in_range P) recs /\ jst_ok st' /\ Forall wop_ok ops /\
       forall rest, dec_line1 fuel pk p w y pfp pn1 st x pw cur (ops_bits ops ++ rest) = Ok (st', cur', rest).
   Proof.
     pose proof (pow2_bounds P HP) as Hpb.
     induction fuel as [|f IH]; intros st x pw cur inp ops_rev st' cur' ops_rev' Hst Hx0 Hxw Hinp Hcur Hpw Henc.
     - destruct inp as [|xs inp']; cbn [enc_line1] in Henc; [|discriminate].
       inversion Henc; subst st' cur' ops_rev'. exists [], []. cbn [rev app ops_bits].
-      split; [reflexivity|]. split; [reflexivity|]. split; [constructor|]. split; [constructor|]. split; [exact Hst|].
+      split; [reflexivity|]. split; [reflexivity|]. split; [constructor|]. split; [constructor|]. split; [exact Hst|]. split; [constructor|].
       intros rest. cbn [dec_line1 length] in *. destruct (Z.geb_spec x w); [reflexivity|lia].
     - destruct inp as [|xs inp']; cbn [enc_line1] in Henc.
       + inversion Henc; subst st' cur' ops_rev'. exists [], []. cbn [rev app ops_bits].
-        split; [reflexivity|]. split; [reflexivity|]. split; [constructor|]. split; [constructor|]. split; [exact Hst|].
+        split; [reflexivity|]. split; [reflexivity|]. split; [constructor|]. split; [constructor|]. split; [exact Hst|]. split; [constructor|].
         intros rest. cbn [dec_line1 length] in *. destruct (Z.geb_spec x w); [reflexivity|lia].
       + cbn [length] in Hxw. inversion Hinp as [|? ? Hxs Hinp']. subst x0 l.
         set (left := match cur with l :: _ => l | [] => 0 end) in *.
@@ -132,22 +132,23 @@ Section Line1.
           fold store1 in Henc. rewrite Ereg in Henc.
           assert (Hs1 : pk = PkNear -> store1 = true) by (intro E; unfold store1; rewrite E; reflexivity).
           destruct (regular_lockstep store1 _ qs ra rb rc xs [] ops c' stored Hs1 Hxs Ereg)
-            as (_ & Hclose & Hsr).
+            as (_ & Hclose & Hsr & Hwf1).
           assert (Hcur2 : Forall (in_range P) (stored :: cur)) by (constructor; assumption).
           assert (Hpw2 : Forall (in_range P) (tl pw)) by (destruct pw; [constructor | inversion Hpw; assumption]).
           assert (Hx1 : 0 <= x + 1) by lia.
           assert (Hlen2 : x + 1 + Z.of_nat (length inp') = w) by lia.
           destruct (IH _ _ _ _ _ _ _ _ _ (jst_ok_set_ctx _ _ _ Hst) Hx1 Hlen2 Hinp' Hcur2 Hpw2 Henc)
-            as (ops2 & recs2 & Hops & Hcur' & Hrel & Hrng & Hst' & Hdec).
+            as (ops2 & recs2 & Hops & Hcur' & Hrel & Hrng & Hst' & Hwf2 & Hdec).
           exists (ops ++ ops2), (stored :: recs2).
           split; [rewrite Hops, rev_append_rev', rev_app_distr, app_assoc; reflexivity|].
           split; [rewrite Hcur'; cbn [rev]; rewrite <- app_assoc; reflexivity|].
           split; [constructor; assumption|]. split; [constructor; assumption|]. split; [assumption|].
+          split; [apply Forall_app; split; assumption|].
           intros rest. cbn [dec_line1]. destruct (Z.geb_spec x w); [lia|].
           fold left. rewrite Enb. fold qs. rewrite Eqs, Hci.
           rewrite ops_bits_app, <- app_assoc.
           destruct (regular_lockstep store1 _ qs ra rb rc xs (ops_bits ops2 ++ rest) ops c' stored Hs1 Hxs Ereg)
-            as (Hd & _ & _).
+            as (Hd & _).
           rewrite Hd. apply Hdec.
         * (* run mode *)
           destruct (run_count pk p ra (xs :: inp') 0 0) as [[n m] rest0] eqn:Erc.
@@ -164,7 +165,7 @@ Section Line1.
             - apply Z.eqb_eq. lia.
             - apply Z.eqb_neq. lia. }
           destruct (run_roundtrip (S (length run)) (Z.of_nat (length run)) remaining (js_ri st) [] Hri
-                      ltac:(unfold remaining; lia) Hrem ltac:(lia)) as (rops & ri' & Hrl & Hri' & _).
+                      ltac:(unfold remaining; lia) Hrem ltac:(lia)) as (rops & ri' & Hrl & Hri' & _ & Hwfr).
           rewrite Heol in Hrl. rewrite Hrl in Henc.
           assert (HrunR : Forall (in_range P) (repeat ra (length run))) by (apply Forall_repeat; assumption).
           assert (Hst1 : jst_ok (set_ri st ri')) by (apply jst_ok_set_ri; [unfold jst_ok; auto | assumption]).
@@ -172,7 +173,7 @@ Section Line1.
                                      Some (Z.of_nat (length run), ri', R)).
           { intros R.
             destruct (run_roundtrip (S (length run)) (Z.of_nat (length run)) remaining (js_ri st) R Hri
-                        ltac:(unfold remaining; lia) Hrem ltac:(lia)) as (rops2 & ri2 & Hrl2 & _ & Hd2).
+                        ltac:(unfold remaining; lia) Hrem ltac:(lia)) as (rops2 & ri2 & Hrl2 & _ & Hd2 & _).
             rewrite Heol in Hrl2. rewrite Hrl in Hrl2. inversion Hrl2; subst. exact Hd2. }
           assert (Hrunclose : Forall2 (near_close near) run (repeat ra (length run))).
           { clear - Hrun. induction run as [|v t IHt]; cbn [length repeat]; constructor.
@@ -185,7 +186,7 @@ Section Line1.
              split; [rewrite rev_append_rev'; reflexivity|].
              split; [rewrite push_n_repeat, rev_repeat; reflexivity|].
              split; [rewrite Hsplit, app_nil_r; exact Hrunclose|].
-             split; [assumption|]. split; [assumption|].
+             split; [assumption|]. split; [assumption|]. split; [assumption|].
              intros rest. cbn [dec_line1]. destruct (Z.geb_spec x w); [lia|].
              fold left. rewrite Enb. fold qs. rewrite Eqs. fold remaining. rewrite Hdecrl.
              rewrite Nat2Z.id.
@@ -202,7 +203,7 @@ Section Line1.
                apply win1_in_range; [assumption|]. unfold pw1. apply Forall_skipn. assumption. }
              destruct (interrupt_enc pk p (set_ri st ri') xi ra rb') as [[iops st2] recon] eqn:Eint.
              destruct (interrupt_roundtrip P near pk HP Hnear Hpk (set_ri st ri') xi ra rb' [] iops st2 recon
-                         Hst1 Hra Hrb' Hxi Hstop Eint) as (_ & Hst2 & Hri2 & _ & Hclose & Hrecon).
+                         Hst1 Hra Hrb' Hxi Hstop Eint) as (_ & Hst2 & Hri2 & _ & Hclose & Hrecon & Hwfi).
              assert (Hst3 : jst_ok (set_ri st2 (dec_run_index (js_ri st2)))).
              { apply jst_ok_set_ri; [assumption|]. apply dec_run_index_range. destruct Hst2; assumption. }
              cbn [length] in Hlen.
@@ -214,7 +215,7 @@ Section Line1.
              assert (Hx1 : 0 <= x + Z.of_nat (length run) + 1) by lia.
              assert (Hlen2 : x + Z.of_nat (length run) + 1 + Z.of_nat (length rest') = w) by lia.
              destruct (IH _ _ _ _ _ _ _ _ _ Hst3 Hx1 Hlen2 Hrest' Hcur2 Hpw2 Henc)
-               as (ops2 & recs2 & Hops & Hcur' & Hrel & Hrng & Hst' & Hdec).
+               as (ops2 & recs2 & Hops & Hcur' & Hrel & Hrng & Hst' & Hwf2 & Hdec).
              exists (rops ++ iops ++ ops2), (repeat ra (length run) ++ recon :: recs2).
              split.
              { rewrite Hops, !rev_append_rev', !rev_app_distr, <- !app_assoc. reflexivity. }
@@ -225,6 +226,7 @@ Section Line1.
              split.
              { apply Forall_app. split; [assumption|]. constructor; assumption. }
              split; [assumption|].
+             split; [apply Forall_app; split; [assumption | apply Forall_app; split; assumption]|].
              intros rest. cbn [dec_line1]. destruct (Z.geb_spec x w); [lia|].
              fold left. rewrite Enb. fold qs. rewrite Eqs. fold remaining.
              rewrite !ops_bits_app, <- !app_assoc. rewrite Hdecrl. rewrite Nat2Z.id.
@@ -272,7 +274,7 @@ Section Lines1.
     exists ops lines,
       ops_rev' = rev ops ++ ops_rev /\
       Forall2 (near_close near) pix (concat lines) /\ Forall (in_range P) (concat lines) /\
-      length lines = hfuel /\ Forall (fun l => length l = wn) lines /\
+      length lines = hfuel /\ Forall (fun l => length l = wn) lines /\ Forall wop_ok ops /\
       forall rest, dec_lines1 hfuel pk p w wn y pfp pn1 st prev (ops_bits ops ++ rest) = Ok lines.
   Proof.
     pose proof (pow2_bounds P HP) as Hpb.
@@ -288,7 +290,7 @@ Section Lines1.
       destruct (line1_lockstep P near pk HP Hnear Hpk w y pfp pn1 Hpfp (S wn) st 0 (0 :: prev) []
                   (firstn wn pix) ops_rev st1 cur_rev ops1 Hst ltac:(lia) ltac:(rewrite Hf; lia)
                   (Forall_firstn _ _ wn pix Hpix) ltac:(constructor) Hpw Eline)
-        as (ops_a & recs & Hops1 & Hcur & Hrel & Hrng & Hst1 & Hdec).
+        as (ops_a & recs & Hops1 & Hcur & Hrel & Hrng & Hst1 & Hwfa & Hdec).
       rewrite app_nil_r in Hcur.
       assert (Hcurl : frev cur_rev = recs) by (rewrite frev_rev, Hcur, rev_involutive; reflexivity).
       rewrite Hcurl in Henc.
@@ -298,13 +300,14 @@ Section Lines1.
       { unfold line_first. destruct recs; [unfold in_range; lia | inversion Hrng; assumption]. }
       destruct (IH (y + 1) (line_first recs) pfp st1 recs (skipn wn pix) ops1 ops_rev' Hst1 Hfirst Hrng
                   (Forall_skipn _ _ wn pix Hpix) ltac:(rewrite Hs, Hlen; cbn; lia) Henc)
-        as (ops_b & lines & Hops & Hrel2 & Hrng2 & Hll & Hlw & Hdec2).
+        as (ops_b & lines & Hops & Hrel2 & Hrng2 & Hll & Hlw & Hwfb & Hdec2).
       exists (ops_a ++ ops_b), (recs :: lines).
       split; [rewrite Hops, Hops1, rev_app_distr, app_assoc; reflexivity|].
       split.
       { cbn [concat]. rewrite <- (firstn_skipn wn pix). apply Forall2_app; assumption. }
       split; [cbn [concat]; apply Forall_app; split; assumption|].
       split; [cbn [length]; lia|]. split; [constructor; assumption|].
+      split; [apply Forall_app; split; assumption|].
       intros rest. cbn [dec_lines1]. rewrite ops_bits_app, <- app_assoc.
       fold p in Hdec. rewrite (Hdec (ops_bits ops_b ++ rest)). rewrite Hcurl. rewrite Hdec2. reflexivity.
   Qed.
